@@ -473,7 +473,10 @@ func checkC17(e *Engine, r *Report) {
 					if fo.Name() == "Iterator" {
 						ks = sliceFrom(c.Common().Args[0])
 					}
-					if ks.Has(func(v ssa.Value) bool { g, ok := v.(*ssa.Global); return ok && g.Name() == "KeyPrefixCustomPrecompiledContractMeta" }) {
+					if ks.Has(func(v ssa.Value) bool {
+						g, ok := v.(*ssa.Global)
+						return ok && g.Name() == "KeyPrefixCustomPrecompiledContractMeta"
+					}) {
 						hasIter = true
 					}
 				}
